@@ -289,7 +289,7 @@ _pid = itertools.count(1)
 
 class Real(Part):
     name = "real"
-    budget = {"quick": 48, "thorough": 1200}
+    budget = {"quick": 96, "thorough": 2400}
     max_shards = 6
     min_per_shard = 4
 
@@ -304,6 +304,8 @@ class Real(Part):
             "popen": self.group.makegateway("popen//id=direct"),
             "socket": self.group.makegateway("socket//installvia=base//id=sock"),
             "via": self.group.makegateway("popen//via=base//id=proxied"),
+            # the same pipe transport with all remote senders being greenlets of one OS thread
+            "popen-gevent": self.group.makegateway("popen//execmodel=gevent//id=gev"),
         }
 
     def _drop(self):
@@ -330,7 +332,7 @@ class Real(Part):
             kind_b=st.sampled_from(["recv", "callback"]), rcv_b=st.integers(1, 2),
             kind_a=st.sampled_from(["recv", "callback", "iter"]), rcv_a=st.integers(1, 2),
             sub=st.none(), wrap=st.just("bare")))
-        return st.tuples(st.sampled_from(["popen", "socket", "via"]), st.lists(conv, min_size=1, max_size=4))
+        return st.tuples(st.sampled_from(["popen", "socket", "via", "popen-gevent", "popen-gevent"]), st.lists(conv, min_size=1, max_size=4))
 
     def run(self, case, ctx):
         from vlib import convo
